@@ -208,9 +208,22 @@ def emit(nl, modname, in_names, out_names, const_inputs=None):
                 off += ch[2]
             else:
                 _, cell, sb, w = ch
-                e = ref(cell, sb, w)
-                parts.append(f"(N.shiftl {e} {off})" if off else e)
-                off += w
+                pieces = [(sb, w)]
+                if cell == 0:
+                    # a run of Top bits may cross top-level port boundaries: split it per port
+                    pieces = []; cur = sb; end = sb + w
+                    while cur < end:
+                        for nm, (start, pw) in top.ports_i.items():
+                            if start <= cur < start + pw:
+                                take = min(end, start + pw) - cur
+                                pieces.append((cur, take)); cur += take
+                                break
+                        else:
+                            raise Unsupported("unknown top net")
+                for (psb, pw_) in pieces:
+                    e = ref(cell, psb, pw_)
+                    parts.append(f"(N.shiftl {e} {off})" if off else e)
+                    off += pw_
         if not parts:
             return "0"
         e = parts[0]
